@@ -12,7 +12,7 @@ def run(tier, seed):
     nruns = 0
     for name, args in runs:
         wd = common.workdir("C06-" + name)
-        common.run([vh] + [str(a) for a in args] + ["-out", wd], timeout=7200)
+        common.run_resumable([vh] + [str(a) for a in args] + ["-out", wd], wd, name, timeout=7200)
         meta = json.load(open(os.path.join(wd, "meta.json")))
         cks = schemafam.chunks(wd)
         for r, fails in common.parallel(lambda c: schemafam.eval_chunk(c, "Trace_Total", []), cks):
